@@ -103,7 +103,15 @@ static size_t obj_size = 0;
 static const xform_desc* cur = NULL;
 static wuffs_base__io_transformer* xf = NULL;
 
-static uint8_t* dst_mem = NULL;   // destination storage
+// Destination storage: two arenas used alternately, so that "relocating" the
+// destination (presenting the retained bytes at a different address and
+// alignment, with different bytes beyond wi) costs one memcpy of the retained
+// bytes - no allocation, no fill. What lies beyond wi after a relocation is
+// whatever the other arena held: earlier output, i.e. realistic stale data.
+static uint8_t* dst_arena[2] = {NULL, NULL};
+static int dst_cur = 0;
+static size_t dst_off = 0;        // alignment offset of dst_mem inside its arena (0..15)
+static uint8_t* dst_mem = NULL;   // = dst_arena[dst_cur] + dst_off
 static size_t dst_cap = 0;
 static wuffs_base__io_buffer_meta dst_meta;
 
@@ -124,10 +132,19 @@ static void fill_mem(uint8_t* p, size_t n, uint32_t fill, uint32_t seed) {
   switch (fill) {
     case 0: memset(p, 0x00, n); break;
     case 1: memset(p, 0xFF, n); break;
-    case 2:
+    case 2: {
+      // Pseudo-random bytes for the first 4 KiB, then replicated (a multi-MiB
+      // object or buffer must not cost a byte-at-a-time loop per run).
       prng_state = 0x1234567ull + seed;
-      for (size_t i = 0; i < n; i++) p[i] = prng8();
+      size_t head = n < 4096 ? n : 4096;
+      for (size_t i = 0; i < head; i++) p[i] = prng8();
+      for (size_t have = head; have < n;) {
+        size_t k = have < n - have ? have : n - have;
+        memcpy(p + have, p, k);
+        have += k;
+      }
       break;
+    }
     default: break;
   }
 }
@@ -160,11 +177,19 @@ static void do_new(void) {
   wuffs_base__status st = d->init(obj, claimed, ver, flags);
   xf = d->up(obj);
 
-  free(dst_mem);
-  dst_cap = dcap;
-  dst_mem = (uint8_t*)malloc(dcap ? dcap : 1);
-  if (!dst_mem) die("out of memory (dst)");
-  fill_mem(dst_mem, dcap, dfill, seed + 17);
+  if (dcap != dst_cap || !dst_arena[0]) {
+    free(dst_arena[0]);
+    free(dst_arena[1]);
+    dst_arena[0] = (uint8_t*)malloc(dcap + 32);
+    dst_arena[1] = (uint8_t*)malloc(dcap + 32);
+    if (!dst_arena[0] || !dst_arena[1]) die("out of memory (dst)");
+    dst_cap = dcap;
+  }
+  fill_mem(dst_arena[0], dcap + 32, dfill, seed + 17);
+  fill_mem(dst_arena[1], dcap + 32, dfill, seed + 18);
+  dst_cur = 0;
+  dst_off = seed & 15;
+  dst_mem = dst_arena[0] + dst_off;
   memset(&dst_meta, 0, sizeof(dst_meta));
 
   wr8('N' | 0x20);
@@ -179,7 +204,51 @@ static void do_new(void) {
 //    dst_wi_before:u32 dst_wi_after:u32 dst_ri:u32 dst_pos:u64 dst_closed:u8 dst_prefix_ok:u8 dst_len:u32,
 //    new bytes (u32 len + bytes),
 //    workbuf_len min:u64 max:u64, history: has:u8 value:u64
+static void apply_drain(uint32_t k) {
+  if (k > dst_meta.wi - dst_meta.ri) k = (uint32_t)(dst_meta.wi - dst_meta.ri);
+  dst_meta.ri += k;
+}
+
+static uint32_t apply_compact(uint32_t retain, uint8_t relocate) {
+  size_t from = dst_meta.ri;
+  if (dst_meta.wi >= retain && dst_meta.wi - retain < from) from = dst_meta.wi - retain;
+  if (dst_meta.wi < retain) from = 0;
+  size_t n = dst_meta.wi - from;
+  if (relocate) {
+    int other = 1 - dst_cur;
+    size_t off = (dst_off + 5) & 15;
+    uint8_t* nm = dst_arena[other] + off;
+    memcpy(nm, dst_mem + from, n);
+    dst_cur = other;
+    dst_off = off;
+    dst_mem = nm;
+  } else {
+    memmove(dst_mem, dst_mem + from, n);
+  }
+  dst_meta.pos += from;
+  dst_meta.ri -= from;
+  dst_meta.wi -= from;
+  return (uint32_t)from;
+}
+
+// 'C' begins with the consumer's actions since the previous call (one round
+// trip per call instead of three): pre:u8 bit0 = drain (k:u32 follows),
+// bit1 = compact (retain:u32 relocate:u8 follow). The reply starts with
+// drained:u32 moved:u32.
 static void do_call(void) {
+  uint8_t pre = rd8();
+  uint32_t drained = 0, moved = 0;
+  if (pre & 1) {
+    uint32_t k = rd32();
+    size_t before = dst_meta.ri;
+    apply_drain(k);
+    drained = (uint32_t)(dst_meta.ri - before);
+  }
+  if (pre & 2) {
+    uint32_t retain = rd32();
+    uint8_t relocate = rd8();
+    moved = apply_compact(retain, relocate);
+  }
   uint32_t src_len = rd32();
   // Exact-size allocation: any read at or beyond wi is a heap overflow ASan sees.
   uint8_t* src = (uint8_t*)malloc(src_len ? src_len : 1);
@@ -209,9 +278,18 @@ static void do_call(void) {
   dbuf.data.len = dst_meta.wi + space;
   dbuf.meta = dst_meta;
   size_t wi_before = dst_meta.wi;
-  uint8_t* dshadow = (uint8_t*)malloc(wi_before ? wi_before : 1);
+  // Shadow of the already-written destination bytes. For a large prefix only
+  // its head (4 KiB) and its tail (128 KiB, where history copies read from)
+  // are shadowed: the full copy made long un-compacted runs quadratic.
+  size_t sh_head = wi_before, sh_tail = 0;
+  if (wi_before > (4096 + 131072)) {
+    sh_head = 4096;
+    sh_tail = 131072;
+  }
+  uint8_t* dshadow = (uint8_t*)malloc(sh_head + sh_tail + 1);
   if (!dshadow) die("out of memory (dst shadow)");
-  memcpy(dshadow, dst_mem, wi_before);
+  memcpy(dshadow, dst_mem, sh_head);
+  memcpy(dshadow + sh_head, dst_mem + wi_before - sh_tail, sh_tail);
 
   if (work_len > work_cap) {
     // Growing keeps the contents (the API asks the caller to preserve them).
@@ -233,10 +311,13 @@ static void do_call(void) {
   uint8_t src_ok = (s.data.ptr == src) && (s.data.len == src_len) && (s.meta.wi == src_len) &&
                    (s.meta.pos == pos) && ((s.meta.closed != 0) == (closed != 0)) &&
                    (memcmp(shadow, src, src_len) == 0);
-  uint8_t prefix_ok = (dbuf.data.ptr == dst_mem) && (memcmp(dshadow, dst_mem, wi_before) == 0);
+  uint8_t prefix_ok = (dbuf.data.ptr == dst_mem) && (memcmp(dshadow, dst_mem, sh_head) == 0) &&
+                      (memcmp(dshadow + sh_head, dst_mem + wi_before - sh_tail, sh_tail) == 0);
   dst_meta = dbuf.meta;
 
   wr8('C' | 0x20);
+  wr32(drained);
+  wr32(moved);
   wrstr(st.repr);
   wr32((uint32_t)s.meta.ri);
   wr8(src_ok);
@@ -280,10 +361,10 @@ static void do_query(void) {
 // 'D': the consumer drains k bytes (dst.ri += k).
 static void do_drain(void) {
   uint32_t k = rd32();
-  if (k > dst_meta.wi - dst_meta.ri) k = (uint32_t)(dst_meta.wi - dst_meta.ri);
-  dst_meta.ri += k;
+  size_t before = dst_meta.ri;
+  apply_drain(k);
   wr8('D' | 0x20);
-  wr32(k);
+  wr32((uint32_t)(dst_meta.ri - before));
 }
 
 // 'K': compact the destination, keeping at least `retain` bytes of history
@@ -293,25 +374,9 @@ static void do_drain(void) {
 static void do_compact(void) {
   uint32_t retain = rd32();
   uint8_t relocate = rd8();
-  size_t from = dst_meta.ri;
-  if (dst_meta.wi >= retain && dst_meta.wi - retain < from) from = dst_meta.wi - retain;
-  if (dst_meta.wi < retain) from = 0;
-  size_t n = dst_meta.wi - from;
-  if (relocate) {
-    uint8_t* nm = (uint8_t*)malloc(dst_cap ? dst_cap : 1);
-    if (!nm) die("out of memory (relocate)");
-    memset(nm, 0x5C, dst_cap);
-    memcpy(nm, dst_mem + from, n);
-    free(dst_mem);
-    dst_mem = nm;
-  } else {
-    memmove(dst_mem, dst_mem + from, n);
-  }
-  dst_meta.pos += from;
-  dst_meta.ri -= from;
-  dst_meta.wi -= from;
+  uint32_t from = apply_compact(retain, relocate);
   wr8('K' | 0x20);
-  wr32((uint32_t)from);
+  wr32(from);
 }
 
 int main(void) {
